@@ -1,6 +1,16 @@
 """What each registered check claims (source of MANIFEST.json; see tools/gen_manifest.py)."""
 
 CLAIMS = {
+    "C14": {
+        "text": "Recurrence conformance: bsplev_single_f64 and bspldnev_single_f64 are flattened into their complete path sets (8 resp. 10 paths, for "
+                "org_k given or defaulted) and must equal the Cox-de Boor decision list with the support short-circuit and the right-end rule, resp. "
+                "the derivative recursion (m=0 -> value, k=1 or m>=k -> 0, factor k-1, Some(org_k) on every recursive call); every quotient's "
+                "denominator must be the difference its guard tests. Non-negativity, locality and partition of unity are consequences of the "
+                "recurrence and are not separately evaluated.",
+        "design_ref": "DESIGN.md §4 C14",
+        "note": "Not decided: values at concrete knots/points, rounding. A behaviour-preserving restructuring of the kernels' decision order can trip R14.1 (fail closed).",
+        "technique": "path-set equality of symbolic summaries against the recurrence; guard/denominator agreement",
+    },
     "C13": {
         "text": "Claimed for structure only: both eliminations are evaluated as ordered lists of guarded update statements on (A, b); the generic and the "
                 "float-matrix implementation must have identical lists (sibling agreement — a change to one not mirrored in the other is reported), the "
